@@ -55,15 +55,16 @@ def scanFrac : List UInt8 → Option (List UInt8)
     | [] => none
   | l => scanExp l
 
-/-- `-? (0 | [1-9][0-9]*) frac? exp?` -/
-def scanNumber (l : List UInt8) : Option (List UInt8) :=
-  let l1 := match l with
-    | 45 :: t => t
-    | l => l
-  match l1 with
+/-- `(0 | [1-9][0-9]*) frac? exp?` -/
+def scanNum1 : List UInt8 → Option (List UInt8)
   | 48 :: t => scanFrac t
   | d :: t => if 49 ≤ d && d ≤ 57 then scanFrac (skipDigits t) else none
   | [] => none
+
+/-- `-? (0 | [1-9][0-9]*) frac? exp?` -/
+def scanNumber : List UInt8 → Option (List UInt8)
+  | 45 :: t => scanNum1 t
+  | l => scanNum1 l
 
 def scanLit (lit : List UInt8) (l : List UInt8) : Option (List UInt8) :=
   if lit.isPrefixOf l then some (l.drop lit.length) else none
